@@ -28,12 +28,12 @@ type c06Case struct {
 }
 
 type injCall struct {
-	Name  string
-	Check *sim.TxSpec // CheckTx of this template …
-	Dup   bool        // … or of the consensus transaction that is delivered next (duplicate of a block tx)
-	DupPrev bool      // … or of the one delivered last
-	Query string      // or a query path
-	QKey  string      // wallet name / ""
+	Name    string
+	Check   *sim.TxSpec // CheckTx of this template …
+	Dup     bool        // … or of the consensus transaction that is delivered next (duplicate of a block tx)
+	DupPrev bool        // … or of the one delivered last
+	Query   string      // or a query path
+	QKey    string      // wallet name / ""
 }
 
 func c06Menu() []injCall {
